@@ -120,7 +120,12 @@ func (e *Engine) generate(cfg RunConfig) []string {
 		if cfg.Verbose {
 			fmt.Fprintf(os.Stderr, "  generating %s\n", k)
 		}
+		mark, errMark, pathMark := len(e.obls), len(e.errors), e.pathCount
+		e.unkIdents = map[string]bool{}
 		e.verifyFunction(fn, con)
+		if len(e.unkIdents) > 0 && !e.noRebind {
+			e.rebindLocals(cfg, fn, con, mark, errMark, pathMark)
+		}
 		verified = append(verified, k)
 		// assume–guarantee closure: contracts used at call sites must be verified too
 		if len(cfg.Funcs) == 0 {
@@ -155,6 +160,7 @@ func run(cfg RunConfig) (*Engine, *RunResult, error) {
 	t2 := time.Now()
 	s := newSolver(cfg.Work, cfg.Timeout)
 	s.retry = true
+	s.lastChance = 6 * cfg.Timeout
 	s.keep = cfg.Keep
 	rr.Solver = s
 	rr.Results = e.dischargeAll(s, e.obls, cfg.Workers)
